@@ -5,7 +5,7 @@ CFG = {
     "check_vo": "theories/Check/C01.vo", "prop_vo": "theories/Properties/C01.vo",
     "prop_file": "theories/Properties/C01.v",
     "theory_files": ["theories/Mesh/Heap.v", "theories/Mesh/HeapProofs.v", "theories/Mesh/HeapCommute.v",
-                     "theories/Mesh/HeapRefine.v"],
+                     "theories/Mesh/HeapRefine.v", "theories/Mesh/HeapRefineAppend.v"],
     "level_text": "Coq theorems about a heap-level model of modeling.Mesh (Go slices {ptr,len,cap} into an append-only table "
                   "of backing arrays, Go maps as heap objects named by ids; every mesh operation modelled by which arrays "
                   "and maps it reads, allocates, shares and writes): for every growth policy of append(), every history "
@@ -17,7 +17,8 @@ CFG = {
                   "slice another mesh's Materials() handed out). heap_refines_pure_partial ties the heap model to the "
                   "pure model of C02/C03 (Mesh/Pure.v): for NewMesh/EmptyMesh/SetIndices/SetMaterial(s)/"
                   "SetMaterials(other.Materials())/ToPointCloud/FlipTriangleWinding/ClearAttributeData the created "
-                  "mesh, read through its slices, is the value Pure.step computes, and every member has one pure value "
+                  "mesh, read through its slices, is the value Pure.step computes, for Append its topology, renumbered "
+                  "indices and materials are (append_refines_pure_partial), and every member has one pure value "
                   "for ever (pure_value_stable). The model is tied to the Go code on every run: generated branching "
                   "histories are executed on real modeling.Mesh values, EVERY live mesh is re-read after EVERY step "
                   "through the public API, the snapshots are judged by the property itself (direct oracle) and compared "
@@ -25,7 +26,7 @@ CFG = {
     "level_note": "Trusted: Coq kernel + vm_compute; hand-written model tied by differential correspondence only (generator "
                   "quality bounds it); contents of arrays produced by float arithmetic (rotations, normals, smoothing, "
                   "primitives) are taken from the implementation - C01 is about sharing, not values; "
-                  "heap_refines_pure is partial: the operations that rebuild attribute arrays (Append's attributes, "
+                  "heap_refines_pure is partial: the operations that rebuild attribute arrays (the attribute part of Append, "
                   "Unweld, RemovedUnreferencedVertices, Weld, filters, Crop, Slice/Split, repeat) and the attribute "
                   "setters are not connected to Mesh/Pure.v, and mesh_wf (slices lie within their arrays) is a "
                   "hypothesis, not an invariant proved along histories",
